@@ -85,6 +85,20 @@ pub fn check_grammar(p: &Prepared, _known: &Known, stats: &mut Stats, max_calls:
                     stats.inc("observed.limit-beyond-need-still-refuses");
                 }
             }
+            // limits far beyond the need (every width the limit might be stored in): a parse that
+            // completes under limit C completes identically under every larger limit
+            #[cfg(target_pointer_width = "64")]
+            for big in [(1usize << 16) + 1, (1usize << 32) + 1, (1usize << 63) + 1].into_iter().filter(|_| !detail && c >= 2) {
+                pest::set_call_limit(NonZeroUsize::new(big));
+                let r = run_vm(&p.vm, start, input);
+                pest::set_call_limit(None);
+                stats.inc("evaluations");
+                if r != r_inf {
+                    stats.violation_class("large-limit-differs", json!({"kind": "completes-under-the-needed-limit-but-not-under-a-much-larger-one", "grammar": p.text, "rule": start, "input": input, "limit": big, "calls_needed": c,
+                        "unlimited": real_json(&r_inf), "limited": real_json(&r), "error_detail": detail, "features": feat()}));
+                    break;
+                }
+            }
             stats.outcome(&format!("calls{}:{}{}", c.min(12), outcomes, if detail { ":detail" } else { "" }));
             if !sampled && (stats.samples.len() < 2 || stats.get("grammars_accepted") % 2000 == 0) {
                 sampled = true;
